@@ -110,10 +110,16 @@ def check_text(job):
     return out
 
 
-def make_connector(host, port, timeout, sends):
+def make_connector(host, port, timeout, sends, binctx=False):
     from cpppo.server.enip import client
 
     class Logged(client.connector):
+        def index_to_sender_context(self, index):
+            if not binctx:
+                return super(Logged, self).index_to_sender_context(index)
+            return bytes(bytearray([1 + index % 200, 0, 7, 0, 0, 9]))          # sender contexts are octets: some of them zero, inside
+
+
         def unconnected_send(self, request, route_path=None, send_path=None, **kw):
             members = len(request.multiple.request) if isinstance(request, dict) and "multiple" in request else 1
             sends.append({"route_path": route_path, "send_path": send_path, "members": members})
@@ -176,7 +182,7 @@ def run_client(job):
     if ref:
         fault = None
     try:
-        conn = make_connector(addr[0], addr[1], 0.6 if fault else 5.0, sends)
+        conn = make_connector(addr[0], addr[1], 0.6 if fault else 5.0, sends, binctx=len(setting) > 5 and setting[5])
         with conn:
             for rnd in range(2 if reuse else 1):
                 for idx, dsc, op, rpy, sts, val in conn.operate(operations, depth=depth, multiple=multiple, fragment=fragment,
